@@ -389,6 +389,36 @@ example :
     (get (s.next (.keyrollActivate 63)).objs 0).map (fun ok => (keys ok.currentSet.published, ok.sideSetsEmpty)) =
       some ([.cer 6, .prod .roa 31], true) := by decide
 
+/-- "Once the parent confirms revocation … the certificate disappears": a revocation request that
+is stored with events leaves no certificate for that key in the parent's class – neither issued
+nor suspended – and the key is marked revoked in the child's record. -/
+theorem revoke_removes_certificate {s s' : Sys} {ch : Handle} {childRcn : Rcn} {ki : KeyId} {evs : List Ev}
+    (hex : s.exec (.childRevokeKey ch childRcn ki) = .stored evs s') (hne : evs ≠ []) :
+    ∃ cd rc', get s.ca.children ch = some cd ∧ get s'.ca.classes (cd.nameInParent childRcn) = some rc' ∧
+      get rc'.certs.issued ki = none ∧ get rc'.certs.suspended ki = none := by
+  obtain ⟨hp, hr⟩ := exec_stored_iff.mp hex
+  obtain ⟨ca', o'⟩ := s'
+  obtain ⟨ha, _⟩ := runEvs_some_iff.mp hr
+  simp only [Ca.process] at hp
+  cases hg : get s.ca.children ch with
+  | none => simp [hg] at hp
+  | some cd =>
+    simp only [hg] at hp
+    split at hp
+    · simp only [Except.ok.injEq] at hp; exact absurd hp.symm hne
+    · rename_i hcls
+      split at hp
+      · cases hp
+      · simp only [Except.ok.injEq] at hp; subst hp
+        cases hrc : get s.ca.classes (cd.nameInParent childRcn) with
+        | none => simp [hrc] at hcls
+        | some rc =>
+          refine ⟨cd, ?_⟩
+          simp only [Ca.applyAll, Ca.apply, Ca.withClass, Ca.withChild, hrc, hg, Option.bind_some, get_set,
+            if_true, List.foldl_cons, List.foldl_nil, Option.some.injEq] at ha
+          subst ha
+          simp [get_set, ChildCerts.applyUpd, ChildCerts.removeRevoked, get_del]
+
 /-! ## A second roll request is a no-op -/
 
 /-- `append_keyroll_initiate` emits nothing unless the class is `Active`. -/
